@@ -24,16 +24,17 @@ EXTENDS Integers, Sequences, FiniteSets, TLC
 CONSTANTS MaxLen, BackwardReads, ElementsMode
 
 \* ---- the job pool (names are the keys of drivers/session_driver.py:JOBS) -------------------
-Jobs == {"tight", "loose", "nh3A", "cisC", "uhfD", "sp2E", "radA", "h2oA", "mdF", "dispG", "dispH"}
+Jobs == {"tight", "loose", "nh3A", "cisC", "uhfD", "sp2E", "radA", "h2oA", "mdF", "dispG", "dispH", "farI", "uhfJ"}
 Dict(j)   == CASE j \in {"tight", "nh3A", "radA", "h2oA"} -> "A" [] j = "loose" -> "B" [] j = "cisC" -> "C"
-               [] j = "uhfD" -> "D" [] j = "sp2E" -> "E" [] j = "mdF" -> "F" [] j = "dispG" -> "G" [] j = "dispH" -> "H"
-Elems(j)  == CASE j \in {"tight", "loose", "sp2E", "h2oA", "mdF", "dispG"} -> {1, 8} [] j \in {"nh3A", "radA"} -> {1, 7}
-               [] j \in {"cisC", "dispH"} -> {1, 6, 8} [] j = "uhfD" -> {1, 6}
+               [] j = "uhfD" -> "D" [] j = "sp2E" -> "E" [] j = "mdF" -> "F" [] j = "dispG" -> "G" [] j = "dispH" -> "H" [] j = "farI" -> "I" [] j = "uhfJ" -> "J"
+Elems(j)  == CASE j \in {"tight", "loose", "sp2E", "h2oA", "mdF", "dispG", "farI"} -> {1, 8} [] j \in {"nh3A", "radA"} -> {1, 7}
+               [] j \in {"cisC", "dispH"} -> {1, 6, 8} [] j \in {"uhfD", "uhfJ"} -> {1, 6}
 Method(j) == IF j = "loose" THEN "PM3" ELSE "AM1"
 EpsExp(j) == CASE j = "tight" -> 10 [] j = "loose" -> 3 [] j = "cisC" -> 7 [] OTHER -> 8
 Backward(j) == CASE j \in {"tight", "loose"} -> 1 [] j = "sp2E" -> 2 [] OTHER -> 0
-Fails(j)  == j = "radA"     \* odd-electron RHF: raises inside Molecule.__init__, after `elements` was stored
-Dicts == {"A", "B", "C", "D", "E", "F", "G", "H"}
+Fails(j)  == j \in {"radA", "uhfJ"}   \* radA: odd-electron RHF, raises inside Molecule.__init__, after `elements` was stored
+FailsLate(j) == j = "uhfJ"            \* UHF + Pulay: refused inside SCF.forward, after the SCF class attributes were set
+Dicts == {"A", "B", "C", "D", "E", "F", "G", "H", "I", "J"}
 
 VARIABLES hist, scfcls, delems, pending, eff, beff
 vars == <<hist, scfcls, delems, pending, eff, beff>>
@@ -57,7 +58,8 @@ Forward(j) ==
     /\ hist' = Append(hist, <<"fwd", j>>)
     /\ delems' = [delems EXCEPT ![Dict(j)] = NewElems(j)]
     /\ IF Fails(j)
-         THEN UNCHANGED <<scfcls, pending, eff, beff>>
+         THEN /\ scfcls' = IF FailsLate(j) /\ Elems(j) \subseteq NewElems(j) THEN Own(j) ELSE scfcls
+              /\ UNCHANGED <<pending, eff, beff>>
          ELSE /\ eff' = [k \in DOMAIN eff \cup {j} |-> IF k = j THEN [elems_ok |-> Elems(j) \subseteq NewElems(j)] ELSE eff[k]]
               /\ scfcls' = IF Backward(j) \in {0, 1} /\ Elems(j) \subseteq NewElems(j) THEN Own(j) ELSE scfcls
               /\ pending' = IF Backward(j) = 1 /\ Elems(j) \subseteq NewElems(j) THEN pending \cup {j} ELSE pending
